@@ -165,10 +165,11 @@ class Integrate:
         nodes_0to1 = nodes_func(nnodes)
         integ_array = integ_array_func(nnodes)
         knots = curve.knotvector.knots
+        beziers = curve.split()  # A closed rule needs the left limit at span's end
         integrals = []
-        for start, end in zip(knots[:-1], knots[1:]):
-            nodes = tuple(start + (end - start) * node for node in nodes_0to1)
-            curve_vals = tuple(curve.eval(node) for node in nodes)
+        for bezier, start, end in zip(beziers, knots[:-1], knots[1:]):
+            nodes = tuple((1 - node) * start + node * end for node in nodes_0to1)
+            curve_vals = tuple(bezier.eval(node) for node in nodes)
             function_vals = tuple(function(node) for node in nodes)
             new_integral = sum(
                 weight * funcval * curveval
@@ -272,10 +273,11 @@ class Integrate:
         nodes_0to1 = nodes_func(nnodes)
         integ_array = integ_array_func(nnodes)
         knots = curve.knotvector.knots
+        beziers = curve.split()  # A closed rule needs the left limit at span's end
         integrals = []
-        for start, end in zip(knots[:-1], knots[1:]):
-            nodes = tuple(start + (end - start) * node for node in nodes_0to1)
-            curve_vals = tuple(curve.eval(node) for node in nodes)
+        for bezier, start, end in zip(beziers, knots[:-1], knots[1:]):
+            nodes = tuple((1 - node) * start + node * end for node in nodes_0to1)
+            curve_vals = tuple(bezier.eval(node) for node in nodes)
             abscurve_vals = tuple(np.sqrt(float(val @ val)) for val in curve_vals)
             function_vals = tuple(function(node) for node in nodes)
             new_integral = sum(
